@@ -564,3 +564,15 @@ func (s *Sched) AnyRunnable() bool { return len(s.collect()) > 0 }
 type FuncSource struct{ F func(add func(Event)) }
 
 func (f *FuncSource) Enabled(add func(Event)) { f.F(add) }
+
+// ForceGC runs two collections (the second empties the victim caches of sync.Pool) and then
+// lets the finalizer goroutine run what they queued: hertz finalizers put objects back into
+// pools and free buffers, so that happens here and not somewhere inside the steps that follow.
+// Called between episodes and, as a fault ("gc"), from the scheduler goroutine while every task is parked.
+func ForceGC() {
+	runtime.GC()
+	runtime.GC()
+	for i := 0; i < 16; i++ {
+		runtime.Gosched()
+	}
+}
